@@ -9,107 +9,136 @@
    DupShares = TRUE  : pinned tree, DUP pushes a second handle to the SAME cell
    DupShares = FALSE : repaired tree, DUP pushes a shallow copy (as GET / MEMOIZE / BUILD do)
 
-   Opcodes: the aliasing-relevant subset.  Guards come from GenCore (can_emit), the
-   heap effects are transcribed from src/generator/stack_ops.rs.                  *)
+   Eff(h, op, key) is the heap effect of one opcode as a FUNCTION of the heap
+   [cells, stack, memo], transcribed from src/generator/stack_ops.rs.  The model
+   checker runs it from the empty heap over every opcode sequence (MC_Heap*.cfg);
+   TraceHeap.tla applies it to heap states recorded from the real generator and
+   compares the result with the heap the real generator reached.
+
+   A cell is [kind, kids, cal]: kids = set of cells strongly referenced, cal = the
+   callable cell of an instance (0 otherwise; an instance references {cal, args}). *)
 EXTENDS GenCore
 
 CONSTANTS DupShares, MaxOps, MaxCells
 
-VARIABLES cells,   \* id -> [kind, kids]   (kids = set of cell ids strongly referenced)
+VARIABLES cells,   \* sequence of cells, cell id = index
           stack,   \* sequence of cell ids
           memo,    \* key -> cell id
           nops, lastOp
 vars == <<cells, stack, memo, nops, lastOp>>
 
-HeapOps == {B_EMPTY_LIST, B_EMPTY_DICT, B_NONE, B_GLOBAL, B_MARK, B_DUP, B_POP, B_TUPLE1, B_TUPLE, B_LIST,
-            B_APPEND, B_APPENDS, B_SETITEM, B_REDUCE, B_BUILD, B_PUT, B_GET, B_MEMOIZE, B_EMPTY_TUPLE}
+PlainPutOps == {B_PUT, B_BINPUT, B_LONG_BINPUT}     \* GetOps comes from RefPVM
+(* containers whose items are hashed by VALUE in the implementation: structurally equal
+   items collapse, so the implementation may reference FEWER cells than this model *)
+HashedOps == {B_DICT, B_SETITEM, B_SETITEMS, B_ADDITEMS, B_FROZENSET}
+
+HeapOps == {B_NONE, B_MARK, B_GLOBAL, B_STACK_GLOBAL, B_EXT1, B_EXT2, B_EXT4, B_BINPERSID,
+            B_EMPTY_LIST, B_EMPTY_DICT, B_EMPTY_TUPLE, B_EMPTY_SET,
+            B_LIST, B_TUPLE, B_DICT, B_FROZENSET, B_TUPLE1, B_TUPLE2, B_TUPLE3,
+            B_APPEND, B_APPENDS, B_SETITEM, B_SETITEMS, B_ADDITEMS,
+            B_REDUCE, B_NEWOBJ, B_NEWOBJ_EX, B_INST, B_OBJ, B_BUILD,
+            B_DUP, B_POP, B_POP_MARK, B_MEMOIZE} \cup PlainPutOps \cup GetOps
+
+(* the subset explored by the model checker; a configuration may substitute a smaller one *)
+McOps == {B_EMPTY_LIST, B_EMPTY_DICT, B_NONE, B_GLOBAL, B_MARK, B_DUP, B_POP, B_TUPLE1, B_TUPLE, B_LIST,
+          B_APPEND, B_APPENDS, B_SETITEM, B_REDUCE, B_BUILD, B_PUT, B_GET, B_MEMOIZE, B_EMPTY_TUPLE,
+          B_INST, B_OBJ}
 
 Cfg == [P |-> 5, unsafe |-> FALSE, ext |-> FALSE, buf |-> FALSE, min |-> 0, max |-> 0]
 
+Cell(kind, kids, cal) == [kind |-> kind, kids |-> kids, cal |-> cal]
+Leaf(kind) == Cell(kind, {}, 0)
+HeapOf(cs, st, mm) == [cells |-> cs, stack |-> st, memo |-> mm]
+EmptyHeap == HeapOf(<<>>, <<>>, <<>>)
+KindsOf(h) == [k \in 1..Len(h.stack) |-> h.cells[h.stack[k]].kind]
+
+Eff(h, op, key) ==
+    LET C == h.cells
+        S == h.stack
+        M == h.memo
+        n == Len(C)
+        L == Len(S)
+        m == TopMark(KindsOf(h))
+        top(d) == S[L - d]
+        from(a) == {S[k] : k \in a..L}
+        (* push the LAST of the new cells, keeping the first `keep` slots *)
+        Push(new, keep) == HeapOf(C \o new, Append(SubSeq(S, 1, keep), n + Len(new)), M)
+        AddKids(t, ks, keep) == HeapOf([C EXCEPT ![t].kids = @ \cup ks], SubSeq(S, 1, keep), M)
+        (* GLOBAL wraps the global in a Callable cell; REDUCE / NEWOBJ unwrap it *)
+        Inner(c) == IF C[c].kind = K_Callable /\ C[c].kids # {} THEN CHOOSE x \in C[c].kids : TRUE ELSE c
+        Wrapped == <<Leaf(K_Callable), Cell(K_Callable, {n + 1}, 0)>>
+        Inst(cal, args) == Cell(K_Instance, {cal, args}, cal)
+        nextKey == Cardinality(DOMAIN M)
+    IN
+    CASE op = B_NONE -> Push(<<Leaf(K_Scalar)>>, L)
+      [] op = B_MARK -> Push(<<Leaf(K_Mark)>>, L)
+      [] op = B_EMPTY_LIST -> Push(<<Leaf(K_List)>>, L)
+      [] op = B_EMPTY_DICT -> Push(<<Leaf(K_Dict)>>, L)
+      [] op = B_EMPTY_TUPLE -> Push(<<Leaf(K_Tuple)>>, L)
+      [] op = B_EMPTY_SET -> Push(<<Leaf(K_Set)>>, L)
+      [] op \in {B_GLOBAL, B_EXT1, B_EXT2, B_EXT4} -> Push(Wrapped, L)
+      [] op = B_STACK_GLOBAL -> Push(Wrapped, L - 2)
+      [] op = B_BINPERSID -> Push(<<Leaf(K_Str)>>, L - 1)
+      [] op = B_DUP -> IF DupShares THEN HeapOf(C, Append(S, top(0)), M) ELSE Push(<<C[top(0)]>>, L)
+      [] op = B_POP -> HeapOf(C, SubSeq(S, 1, L - 1), M)
+      [] op = B_POP_MARK -> HeapOf(C, SubSeq(S, 1, m - 1), M)
+      [] op = B_TUPLE1 -> Push(<<Cell(K_Tuple, from(L), 0)>>, L - 1)
+      [] op = B_TUPLE2 -> Push(<<Cell(K_Tuple, from(L - 1), 0)>>, L - 2)
+      [] op = B_TUPLE3 -> Push(<<Cell(K_Tuple, from(L - 2), 0)>>, L - 3)
+      [] op = B_TUPLE -> Push(<<Cell(K_Tuple, from(m + 1), 0)>>, m - 1)
+      [] op = B_LIST -> Push(<<Cell(K_List, from(m + 1), 0)>>, m - 1)
+      [] op = B_DICT -> Push(<<Cell(K_Dict, from(m + 1), 0)>>, m - 1)
+      [] op = B_FROZENSET -> Push(<<Cell(K_FrozenSet, from(m + 1), 0)>>, m - 1)
+      [] op = B_APPEND -> AddKids(top(1), {top(0)}, L - 1)
+      [] op = B_SETITEM -> AddKids(top(2), {top(0), top(1)}, L - 2)
+      [] op \in {B_APPENDS, B_SETITEMS, B_ADDITEMS} -> AddKids(S[m - 1], from(m + 1), m - 1)
+      [] op \in {B_REDUCE, B_NEWOBJ} -> Push(<<Inst(Inner(top(1)), top(0))>>, L - 2)
+      [] op = B_NEWOBJ_EX -> Push(<<Inst(Inner(top(2)), top(1))>>, L - 3)
+      [] op = B_INST ->      \* a new global, the items above the mark as a new tuple, the instance
+           Push(<<Leaf(K_Callable), Cell(K_Tuple, from(m + 1), 0), Inst(n + 1, n + 2)>>, m - 1)
+      [] op = B_OBJ ->       \* the first item above the mark is the class, the rest a new tuple
+           Push(<<Cell(K_Tuple, from(m + 2), 0), Inst(S[m + 1], n + 1)>>, m - 1)
+      [] op = B_BUILD ->     \* inst.args = state; push a copy of the instance
+           LET i == top(1)
+               built == Inst(C[i].cal, top(0))
+           IN HeapOf(Append([C EXCEPT ![i] = built], built), Append(SubSeq(S, 1, L - 2), n + 1), M)
+      [] op \in PlainPutOps ->
+           HeapOf(Append(C, C[top(0)]), S, ((IF key >= 0 THEN key ELSE nextKey) :> (n + 1)) @@ M)
+      [] op = B_MEMOIZE ->
+           HeapOf(C \o <<C[top(0)], C[top(0)]>>, Append(SubSeq(S, 1, L - 1), n + 2), (nextKey :> (n + 1)) @@ M)
+      [] op \in GetOps -> Push(<<C[M[key]]>>, L)
+      [] OTHER -> h
+
+H == HeapOf(cells, stack, memo)
+Kinds == KindsOf(H)
+
 Init == cells = <<>> /\ stack = <<>> /\ memo = <<>> /\ nops = 0 /\ lastOp = -1
 
-Kinds == [k \in 1..Len(stack) |-> cells[stack[k]].kind]
-MemoKinds == [k \in DOMAIN memo |-> cells[memo[k]].kind]
-NextId == Len(cells) + 1
-New(kind, kids) == [kind |-> kind, kids |-> kids]
-TopId(d) == stack[Len(stack) - d]
-Pop(n) == SubSeq(stack, 1, Len(stack) - n)
-Copy(id) == New(cells[id].kind, cells[id].kids)
-
-PushNew(kind) == /\ cells' = Append(cells, New(kind, {}))
-                 /\ stack' = Append(stack, NextId)
-                 /\ UNCHANGED memo
-
-Do(op) ==
-    LET m == TopMark(Kinds)
-        above == {stack[k] : k \in (m + 1)..Len(stack)}
-    IN
-    CASE op = B_EMPTY_LIST -> PushNew(K_List)
-      [] op = B_EMPTY_DICT -> PushNew(K_Dict)
-      [] op = B_EMPTY_TUPLE -> PushNew(K_Tuple)
-      [] op = B_NONE -> PushNew(K_Scalar)
-      [] op = B_GLOBAL -> PushNew(K_Callable)
-      [] op = B_MARK -> PushNew(K_Mark)
-      [] op = B_DUP ->
-           IF DupShares
-           THEN stack' = Append(stack, TopId(0)) /\ UNCHANGED <<cells, memo>>
-           ELSE cells' = Append(cells, Copy(TopId(0))) /\ stack' = Append(stack, NextId) /\ UNCHANGED memo
-      [] op = B_POP -> stack' = Pop(1) /\ UNCHANGED <<cells, memo>>
-      [] op = B_TUPLE1 ->
-           /\ cells' = Append(cells, New(K_Tuple, {TopId(0)}))
-           /\ stack' = Append(Pop(1), NextId) /\ UNCHANGED memo
-      [] op \in {B_TUPLE, B_LIST} ->
-           /\ cells' = Append(cells, New(IF op = B_TUPLE THEN K_Tuple ELSE K_List, above))
-           /\ stack' = Append(SubSeq(stack, 1, m - 1), NextId) /\ UNCHANGED memo
-      [] op = B_APPEND ->
-           /\ cells' = [cells EXCEPT ![TopId(1)].kids = @ \cup {TopId(0)}]
-           /\ stack' = Pop(1) /\ UNCHANGED memo
-      [] op = B_APPENDS ->
-           /\ cells' = [cells EXCEPT ![stack[m - 1]].kids = @ \cup above]
-           /\ stack' = SubSeq(stack, 1, m - 1) /\ UNCHANGED memo
-      [] op = B_SETITEM ->
-           /\ cells' = [cells EXCEPT ![TopId(2)].kids = @ \cup {TopId(0), TopId(1)}]
-           /\ stack' = Pop(2) /\ UNCHANGED memo
-      [] op = B_REDUCE ->
-           /\ cells' = Append(cells, New(K_Instance, {TopId(0)}))
-           /\ stack' = Append(Pop(2), NextId) /\ UNCHANGED memo
-      [] op = B_BUILD ->      \* inst.args = state; push a copy of the instance
-           /\ cells' = Append([cells EXCEPT ![TopId(1)].kids = {TopId(0)}], New(K_Instance, {TopId(0)}))
-           /\ stack' = Append(Pop(2), NextId) /\ UNCHANGED memo
-      [] op = B_PUT ->
-           /\ cells' = Append(cells, Copy(TopId(0)))
-           /\ memo' = (Cardinality(DOMAIN memo) :> NextId) @@ memo /\ UNCHANGED stack
-      [] op = B_MEMOIZE ->
-           /\ cells' = cells \o <<Copy(TopId(0)), Copy(TopId(0))>>
-           /\ memo' = (Cardinality(DOMAIN memo) :> NextId) @@ memo
-           /\ stack' = Append(Pop(1), NextId + 1)
-      [] op = B_GET ->
-           \E k \in DOMAIN memo :
-              /\ cells' = Append(cells, Copy(memo[k]))
-              /\ stack' = Append(stack, NextId) /\ UNCHANGED memo
-      [] OTHER -> FALSE
-
-Step(op) ==
-    /\ nops < MaxOps /\ Len(cells) + 2 <= MaxCells
+Step(op, key) ==
+    /\ nops < MaxOps /\ Len(cells) + 3 <= MaxCells
     /\ Guard(Cfg, op, Kinds, DOMAIN memo)
-    /\ Do(op)
+    /\ LET h2 == Eff(H, op, key) IN cells' = h2.cells /\ stack' = h2.stack /\ memo' = h2.memo
     /\ nops' = nops + 1 /\ lastOp' = op
 
-Next == \E op \in HeapOps : Step(op)
+Next == \E op \in McOps : \E key \in (IF op \in GetOps THEN DOMAIN memo ELSE {-1}) : Step(op, key)
 Spec == Init /\ [][Next]_vars
 
-(* cells reachable from id through at least one strong reference *)
-RECURSIVE ReachFrom(_, _)
-ReachFrom(frontier, seen) ==
-    LET nxt == UNION {cells[c].kids : c \in frontier} \ seen IN
-    IF nxt = {} THEN seen ELSE ReachFrom(nxt, seen \cup nxt)
-OnCycle(id) == id \in ReachFrom({id}, {})
+(* cells reachable from a set of cells through at least one strong reference *)
+RECURSIVE ReachIn(_, _, _)
+ReachIn(C, frontier, seen) ==
+    LET nxt == UNION {C[c].kids : c \in frontier} \ seen IN
+    IF nxt = {} THEN seen ELSE ReachIn(C, nxt, seen \cup nxt)
+RootsOf(h) == {h.stack[k] : k \in 1..Len(h.stack)} \cup {h.memo[k] : k \in DOMAIN h.memo}
+LiveOf(h) == RootsOf(h) \cup ReachIn(h.cells, RootsOf(h), {})
+CycleIn(C, ids) == \E id \in ids : id \in ReachIn(C, {id}, {})
 
-NoCycle == \A id \in 1..Len(cells) : ~OnCycle(id)
+NoCycle == ~CycleIn(cells, 1..Len(cells))
 
-(* the structural reason: a cell that is a stack slot is referenced by nothing else *)
+(* the structural reason: a cell that is a stack slot is referenced by nothing else,
+   and opcodes only ever add references to stack-slot cells *)
 Unshared == \A k \in 1..Len(stack) :
                /\ \A j \in 1..Len(stack) : j # k => stack[j] # stack[k]
                /\ \A c \in 1..Len(cells) : stack[k] \notin cells[c].kids
                /\ \A x \in DOMAIN memo : memo[x] # stack[k]
+MutatesOnlySlots == [][\A c \in 1..Len(cells) : cells'[c] # cells[c] => \E k \in 1..Len(stack) : stack[k] = c]_vars
 =============================================================================
